@@ -132,6 +132,9 @@ class Effects:
                     out.append((n, 'ValueError', f'{cn}: math domain error'))
                 elif cn in ('math.exp', 'math.pow', 'math.cosh', 'math.sinh') and any(self._has_value(a, vv) for a in n.args):
                     out.append((n, 'OverflowError', f'{cn}: math range error'))
+                elif cn in ('math.isnan', 'math.isinf', 'math.isfinite', 'math.floor', 'math.ceil', 'math.trunc', 'math.fabs', 'math.copysign', 'math.fmod', 'math.modf', 'math.frexp') \
+                        and any(self._has_value(a, vv) for a in n.args):
+                    out.append((n, 'OverflowError', f'{cn}(int beyond the double range): int too large to convert to float'))
                 elif cn in ('float', 'int') and len(n.args) >= 1 and isinstance(n.args[0], ast.Name) and n.args[0].id in vv and len(n.args) == 2:
                     out.append((n, 'ValueError', 'int(text, base): invalid literal'))
             elif isinstance(n, ast.Compare) or (isinstance(n, ast.BinOp) and isinstance(n.op, ast.Sub)):
